@@ -1,5 +1,7 @@
 // stub of the `redis` crate: the pub/sub connection delivers the messages captured from the Go station
 // (file named by VERIF_S2D_FILE, one hex-encoded payload per line), then signals completion and idles.
+// A line may start with "@<seconds> ": the harness's logical clock (CLOCK_S, read by the stub util::precise_time_ns) is set to
+// that value before the message is delivered; "@<seconds>" alone delivers an empty payload (time passes, nothing is said).
 use std::sync::atomic::{AtomicBool, Ordering};
 pub static DONE: AtomicBool = AtomicBool::new(false);
 #[derive(Debug)] pub struct RedisError(pub String);
@@ -12,13 +14,23 @@ impl Client {
 }
 pub struct Connection;
 impl Connection { pub fn as_pubsub(&mut self) -> PubSub { PubSub::new() } }
-pub struct PubSub { msgs: Vec<Vec<u8>>, next: usize }
+pub static CLOCK_S: std::sync::atomic::AtomicU64 = std::sync::atomic::AtomicU64::new(0);
+pub struct PubSub { msgs: Vec<(Option<u64>, Vec<u8>)>, next: usize }
+fn parse_line(l: &str) -> (Option<u64>, Vec<u8>) {
+    let l = l.trim();
+    if l.starts_with('@') {
+        let mut it = l[1..].splitn(2, ' ');
+        let t = it.next().unwrap().parse::<u64>().expect("clock");
+        return (Some(t), unhex(it.next().unwrap_or("").trim()));
+    }
+    (None, unhex(l))
+}
 fn unhex(s: &str) -> Vec<u8> { (0..s.len() / 2).map(|i| u8::from_str_radix(&s[2 * i..2 * i + 2], 16).unwrap()).collect() }
 impl PubSub {
     fn new() -> PubSub {
         let path = std::env::var("VERIF_S2D_FILE").expect("VERIF_S2D_FILE");
         let txt = std::fs::read_to_string(path).expect("read s2d file");
-        PubSub { msgs: txt.lines().map(|l| unhex(l.trim())).collect(), next: 0 }
+        PubSub { msgs: txt.lines().map(|l| parse_line(l)).collect(), next: 0 }
     }
     pub fn subscribe(&mut self, _c: &str) -> RedisResult<()> { Ok(()) }
     pub fn get_message(&mut self) -> RedisResult<Msg> {
@@ -26,11 +38,14 @@ impl PubSub {
             DONE.store(true, Ordering::SeqCst);
             loop { std::thread::sleep(std::time::Duration::from_secs(3600)); }
         }
-        let m = Msg(self.msgs[self.next].clone());
+        let clock = self.msgs[self.next].0;
+        let m = Msg(self.msgs[self.next].1.clone());
         self.next += 1;
         // let the harness dump the session map after every message
         STEP.store(self.next, Ordering::SeqCst);
         while ACK.load(Ordering::SeqCst) + 1 < self.next { std::thread::sleep(std::time::Duration::from_micros(50)); }
+        // the previous message has been dumped (under ITS clock): now time moves on to this message's
+        if let Some(t) = clock { CLOCK_S.store(t, Ordering::SeqCst); }
         Ok(m)
     }
 }
